@@ -445,15 +445,15 @@ def t10(rep):
     if len(esc) != 1:
         raise AnalysisBroken("ccoPrToken: expected one formatted escape (found %d)" % len(esc))
     call, fmt = esc[0]
-    m = re.search(r"\\%([#0-9.]*)([oxX])", fmt)
+    m = re.search(r"\\x?%([#0-9.]*)([oxX])", fmt)
     if m is None:
         raise AnalysisBroken("ccoPrToken: escape format %r not understood" % fmt)
-    if m.group(2) == "o" and m.group(1) in ("03", ".3"):
+    if m.group(2) == "o" and m.group(1) in ("03", ".3") and "\\x" not in fmt:
         rep.ok("T10", "string-escape:fixed-width", sample={"format": fmt})
     else:
         rep.violation("T10", "string-escape:fixed-width", "ccode.c:%d (ccoPrToken)" % call["l"],
                       "a non-printable byte of a string constant is written with %r: %s, so the executable's string differs from the "
-                      "interpreter's" % (fmt, "a hexadecimal escape has no length limit and absorbs following hex digits" if m.group(2) != "o"
+                      "interpreter's" % (fmt, "a hexadecimal escape has no length limit and absorbs following hex digits (\"Gr\\xc3\\xb6\\xc3\\x9fe\": `\\x9fe` is one escape)" if m.group(2) != "o" or "\\x" in fmt
                                          else "an octal escape of fewer than three digits absorbs a following digit character ('\\1' '7' "
                                          "becomes '\\17')"))
     val = [strip(a) for a in call["c"][2:]]
